@@ -1,25 +1,33 @@
 From Tramp Require Import Model.Base Model.Fee Model.Classify Model.Node Model.Provider Model.ProviderSys Model.Sys.
-From Tramp Require Import Proofs.SysBasics Proofs.SysShape Proofs.SysTheorems Proofs.SysReach Proofs.SysCalls Proofs.SysNode Proofs.SysSafety Props.C02.
+From Tramp Require Import Proofs.SysBasics Proofs.SysShape Proofs.SysTheorems Proofs.SysReach Proofs.SysCalls Proofs.SysNode Proofs.SysSafety Proofs.SysLive Props.C02.
 Check C02_fail_only_when_nothing_live : forall c n t0 h0 a0 evs ev h m,
-  node_ok n -> hist_wf c (sys_start n t0 h0 a0) evs ->
+  node_ok n -> hist_wf true c (sys_start n t0 h0 a0) evs ->
   let s := after c n t0 h0 a0 evs in
   In (OResp h (Fail m)) (snd (step c s ev)) ->
   all_failed (parts (nd s)) /\ payrun (nd s) = 0.
 Check C02_held_while_pending : forall c n t0 h0 a0 evs ev h m pid,
-  node_ok n -> hist_wf c (sys_start n t0 h0 a0) evs ->
+  node_ok n -> hist_wf true c (sys_start n t0 h0 a0) evs ->
   let s := after c n t0 h0 a0 evs in
   nth_error (parts (nd s)) pid = Some PPend -> ~ In (OResp h (Fail m)) (snd (step c s ev)).
 Check C02_never_failed_after_completion : forall c n t0 h0 a0 evs evs' ev p h m,
-  node_ok n -> hist_wf c (sys_start n t0 h0 a0) (evs ++ evs') ->
+  node_ok n -> hist_wf true c (sys_start n t0 h0 a0) (evs ++ evs') ->
   has_done p (parts (nd (after c n t0 h0 a0 evs))) ->
   ~ In (OResp h (Fail m)) (snd (step c (after c n t0 h0 a0 (evs ++ evs')) ev)).
+Check C02_completed_is_settled : forall c n t0 h0 a0 evs en h p0,
+  node_ok n -> hist_wf true c (sys_start n t0 h0 a0) evs ->
+  let s := after c n t0 h0 a0 evs in
+  has_done p0 (parts (nd s)) -> entry_ (pl s) = Some en -> In h (listeners en) -> Settled c (hid h) s.
+Print Assumptions C02_completed_is_settled.
 (* the hypotheses, spelled out so that they cannot be strengthened unnoticed *)
 Check (eq_refl : node_ok = fun n => payrun n = 0 /\ (busy n -> hot n) /\ forall g, ds n <> Some (DGarbage, g)).
-Check (eq_refl : ev_wf = fun s ev => match ev with
-  | EvProcess cid f => f = NoFault \/ forall cl, nth_error (calls s) cid = Some cl -> is_read (c_rpc cl) = false
+Check (eq_refl : ev_wf = fun strict s ev => match ev with
+  | EvProcess cid f =>
+      f = NoFault \/ forall cl, nth_error (calls s) cid = Some cl -> is_read (c_rpc cl) = false \/ (strict = false /\ ~ pay_wait_call s cid)
   | EvPayFinish _ (PayComplete p) => has_done p (parts (nd s))
   | EvPayFinish _ PayFailed => all_failed (parts (nd s))
   | _ => True end).
+(* at the strict level used by C02 that is: no injected error on any read rpc *)
+Check (ev_wf_strict : forall s cid f, ev_wf true s (EvProcess cid f) <-> (f = NoFault \/ forall cl, nth_error (calls s) cid = Some cl -> is_read (c_rpc cl) = false)).
 Print Assumptions C02_fail_only_when_nothing_live.
 Print Assumptions C02_held_while_pending.
 Print Assumptions C02_never_failed_after_completion.
